@@ -49,6 +49,12 @@ func (p *FloatingIPPlugin) Bind(args *schedulerapi.ExtenderBindingArgs) error {
 		// see https://github.com/kubernetes/kubernetes/pull/60332
 		return fmt.Errorf("pod which doesn't want floatingip have been sent to plugin")
 	}
+	if args.PodUID != "" && pod.UID != "" && pod.UID != args.PodUID {
+		// the informer cache still holds an earlier incarnation of a re-created pod, its uid must not be used to
+		// decide whether the pod may reuse the ip, let the scheduler retry
+		return fmt.Errorf("pod %s in cache has uid %s, but uid %s is being bound, cache is out of date",
+			util.Join(args.PodName, args.PodNamespace), pod.UID, args.PodUID)
+	}
 	defer p.lockPod(pod.Name, pod.Namespace)()
 	keyObj, err := util.FormatKey(pod)
 	if err != nil {
